@@ -81,6 +81,7 @@ NewConn(p, dir, src, dst) ==
   [p |-> p, dir |-> dir, src |-> src, dst |-> dst, inbox |-> <<>>, rbuf |-> <<>>,
    dead |-> FALSE, reof |-> FALSE, lclosed |-> FALSE, reset |-> FALSE,
    held |-> FALSE,      \* corebgp holds this connection (accepted / dialled)
+   stalled |-> FALSE,   \* the remote has stopped reading and the send buffer is full: writes block
    openSeen |-> FALSE,  \* a valid OPEN was consumed on it
    ceaseDue |-> FALSE,  \* its FSM was approved into OpenSent or beyond
    rx |-> 0]            \* events the remote has queued on it
@@ -138,6 +139,9 @@ EvFault(n) == [k |-> "fault", n |-> n]       \* header fault: n = NOTIFICATION t
 EvEOF == [k |-> "eof"]                       \* transport failure / orderly close
 
 CanWrite(c) == ~conn[c].lclosed /\ ~conn[c].reset
+(* corebgp sets no write deadline: a write on a stalled connection blocks until the remote reads again, or the
+   connection is closed locally (by another goroutine) or reset *)
+Writable(c) == c \notin DOMAIN conn \/ ~conn[c].stalled \/ ~CanWrite(c)
 
 FsmSub(s) == CASE s = "openSent" -> 1 [] s = "openConfirm" -> 2 [] s = "established" -> 3
 
@@ -291,6 +295,8 @@ FsmStep(p, d) ==
       KaInt == f.H \div 3
   IN
   /\ f.pc = "run" /\ f.todo # <<>>
+  /\ op.op \in {"w", "wKa", "cbWrite", "kaTimer"} => Writable(c)
+  /\ op.op = "wOpen" => (~Representable(OCfg(p), cfg[p].caps) \/ Writable(c))
   /\ CASE op.op = "w" ->
             /\ setF([f EXCEPT !.todo = rest])
             /\ out' = Emit(out, Ev(IF CanWrite(c) THEN "w" ELSE "wfail", "", c, "", 0, op.m, ""))
@@ -388,6 +394,14 @@ FsmStep(p, d) ==
        [] op.op = "closeWriter" ->
             /\ setF([f EXCEPT !.todo = rest, !.wopen = FALSE])
             /\ UNCHANGED <<out, conn, dial, gh>>
+       [] op.op = "kaTimer" ->     \* the keepalive timer fired while the connection was stalled: the write ends now
+            IF CanWrite(c)
+              THEN /\ setF([f EXCEPT !.pc = "st", !.todo = <<>>, !.kaDl = Arm(KaInt)])
+                   /\ out' = Emit(out, Ev("w", "", c, "", 0, MKa, ""))
+                   /\ UNCHANGED <<conn, dial, gh>>
+              ELSE /\ setF([f EXCEPT !.kaDl = Off, !.todo = ErrEnd(f.cur, FALSE)])
+                   /\ out' = Emit(out, Ev("wfail", "", c, "", 0, MKa, ""))
+                   /\ UNCHANGED <<conn, dial, gh>>
        [] op.op = "cbWrite" ->
             LET ok == CanWrite(c) IN
             /\ \E nk \in KaAfterWrite(f, ok) :
@@ -521,7 +535,10 @@ KaFires(p, d) ==
       c == f.conn
   IN
   /\ f.pc = "st" /\ f.cur \in {"openConfirm", "established"} /\ Due(f.kaDl)
-  /\ IF CanWrite(c)
+  /\ IF ~Writable(c)        \* committed to the write, which blocks
+       THEN /\ GoF(p, d, f, <<[op |-> "kaTimer"]>>)
+            /\ UNCHANGED out
+     ELSE IF CanWrite(c)
        THEN /\ fsm' = [fsm EXCEPT ![p][d].kaDl = Arm(f.H \div 3)]
             /\ out' = Emit(out, Ev("w", "", c, "", 0, MKa, ""))
        ELSE /\ GoF(p, d, [f EXCEPT !.kaDl = Off], ErrEnd(f.cur, FALSE))
@@ -913,6 +930,8 @@ AcceptLock ==
 (* WriteUpdate from a goroutine of the application *)
 WriterFsm(p, w) == {d \in Dirs : fsm[p][d].sess = w /\ fsm[p][d].wopen}
 
+(* WriteUpdate: the closeCh poll, then conn.Write on the writer's own connection (which blocks while the
+   connection is stalled), then the keepalive-timer restart unless the session has ended meanwhile *)
 WriteCall(id) ==
   LET cl == calls[id]
       ds == WriterFsm(cl.p, cl.w)
@@ -921,13 +940,23 @@ WriteCall(id) ==
   /\ IF ds = {}
        THEN /\ calls' = Without(calls, id)
             /\ out' = Ret(out, cl.p, "write", cl.w, "err")
-            /\ UNCHANGED fsm
-       ELSE LET d == CHOOSE x \in ds : TRUE
-                f == fsm[cl.p][d]
-                ok == CanWrite(f.conn)
-            IN /\ calls' = [calls EXCEPT ![id].pc = "ret", ![id].r = IF ok THEN "nil" ELSE "err"]
-               /\ out' = Emit(out, Ev(IF ok THEN "w" ELSE "wfail", "", f.conn, "", 0, MUpdate(cl.b), ""))
-               /\ \E nk \in KaAfterWrite(f, ok) : fsm' = [fsm EXCEPT ![cl.p][d].kaDl = nk]
+       ELSE /\ calls' = [calls EXCEPT ![id].pc = "writing", ![id].r = fsm[cl.p][CHOOSE x \in ds : TRUE].conn]
+            /\ UNCHANGED out
+  /\ UNCHANGED <<cfg, srv, pm, fsm, conn, dial, now, gh>>
+
+WriteDo(id) ==
+  LET cl == calls[id]
+      c == cl.r
+      ok == CanWrite(c)
+      ds == WriterFsm(cl.p, cl.w)
+  IN
+  /\ cl.op = "write" /\ cl.pc = "writing"
+  /\ Writable(c)
+  /\ calls' = [calls EXCEPT ![id].pc = "ret", ![id].r = IF ok THEN "nil" ELSE "err"]
+  /\ out' = Emit(out, Ev(IF ok THEN "w" ELSE "wfail", "", c, "", 0, MUpdate(cl.b), ""))
+  /\ IF ds = {} THEN UNCHANGED fsm
+     ELSE LET d == CHOOSE x \in ds : TRUE IN
+          \E nk \in KaAfterWrite(fsm[cl.p][d], ok) : fsm' = [fsm EXCEPT ![cl.p][d].kaDl = nk]
   /\ UNCHANGED <<cfg, srv, pm, conn, dial, now, gh>>
 
 WriteRet(id) ==
@@ -939,7 +968,7 @@ WriteRet(id) ==
 
 CallNext(id) ==
   \/ AddPeer(id) \/ DeletePeerBegin(id) \/ DeletePeerEnd(id) \/ GetPeer(id) \/ ListPeers(id)
-  \/ CloseBegin(id) \/ CloseEnd(id) \/ ServeBegin(id) \/ WriteCall(id) \/ WriteRet(id) \/ CallRet(id)
+  \/ CloseBegin(id) \/ CloseEnd(id) \/ ServeBegin(id) \/ WriteCall(id) \/ WriteDo(id) \/ WriteRet(id) \/ CallRet(id)
 
 SrvNext ==
   \/ ServeSeesClose \/ ServeSeesLisErr \/ ServeLisClosed \/ ServeStopLock \/ ServeStopEnd \/ ServeDone \/ ServeRet
@@ -994,6 +1023,11 @@ EnvRClose(c) ==
   /\ IF conn[c].reof \/ conn[c].reset THEN UNCHANGED conn
      ELSE conn' = [conn EXCEPT ![c].reof = TRUE,
                                ![c].inbox = IF conn[c].dead THEN @ ELSE Append(@, EvEOF)]
+  /\ UNCHANGED <<cfg, srv, calls, pm, fsm, dial, now, out, gh>>
+
+EnvStall(c, on) ==
+  /\ c \in DOMAIN conn
+  /\ conn' = [conn EXCEPT ![c].stalled = on]
   /\ UNCHANGED <<cfg, srv, calls, pm, fsm, dial, now, out, gh>>
 
 EnvReset(c) ==
